@@ -3,7 +3,7 @@
    n_bins quotient) come from Gen/DescFormulas.v.  No proofs in this file. *)
 From Coq Require Import List Arith ZArith QArith Qabs Qround Bool.
 Import ListNotations.
-Require Import MD.Gen.DescFormulas MD.Desc.ContactsModel.
+Require Import MD.Gen.DescFormulas MD.Desc.ContactsModel MD.Desc.MomentsModel.
 Local Open Scope Q_scope.
 
 (* np.histogram(range=(r0, r1), bins=n): edges r0 + k (r1 - r0)/n, k = 0..n *)
@@ -100,7 +100,7 @@ Definition close_res_mixed (m : Q * list Q) (e : list Q) : bool := qlist_close_m
 Definition rdf_d2s (c : rcase) : list Q :=
   let '(tol, unit, r0, r1, b, pairs, per, frames) := c in
   let u := inject_Z unit in
-  flat_map (fun bf => map (fun p => inject_Z (dist2 (Some (fst bf)) per (snd bf) p) / (u * u)) pairs) frames.
+  flat_map (fun bf => map (fun p => inject_Z (dist2 (Some (COrth (fst bf))) per (snd bf) p) / (u * u)) pairs) frames.
 
 (* guard band: a squared distance closer than 1e-6 (relative) to a squared edge without being equal to it
    could be binned differently after float32 rounding of the distance; such cases are not compared *)
@@ -117,3 +117,56 @@ Definition run_rdf (c : rcase) : Q * list Q :=
   let vol (bx : vec) := let '(x, y, z) := bx in (inject_Z x / u) * (inject_Z y / u) * (inject_Z z / u) in
   let '(r, g) := rdf r0 r1 n (length pairs) (map (fun bf => vol (fst bf)) frames) (rdf_d2s c) in
   (tol, inject_Z (Z.of_nat n) :: r ++ g).
+
+(* ------------------------------------------------------------------ compute_rdf_t *)
+(* self_correlation: the pairs (a, a) of every atom occurring in `pairs` (np.unique: sorted) are put in front *)
+Definition rdf_t_pairs (self : bool) (pairs : list (nat * nat)) : list (nat * nat) :=
+  if self then map (fun a => (a, a)) (sort_u (flat_map (fun p => [fst p; snd p]) pairs)) ++ pairs else pairs.
+
+(* The code splits the pairs into chunks of n_concurrent_pairs, normalises the histogram of every chunk by
+   (len(chunk)/period_length) * sum(1/V) * V_shell and averages the chunks with weights len(chunk)/n_concurrent_pairs.
+   [chunk_avg] is that computation for one (time pair, bin): cs = [(count_c, len_c)]. *)
+Definition chunk_avg (ncp period siv v : Q) (cs : list (Q * Q)) : Q :=
+  fold_right Qplus 0 (map (fun cn => (snd cn / ncp) * (fst cn / (snd cn / period * siv * v))) cs)
+  / fold_right Qplus 0 (map (fun cn => snd cn / ncp) cs).
+
+(* ... which is (Props/C16.v: rdf_t_entry) the single normalisation used by the executable model:
+   g(r, t) = count / ((n_pairs / period_length) * sum_f 1/V_f * V_shell) *)
+Definition rdf_t (r0 r1 : Q) (n : nat) (npairs : nat) (period : Q) (vols : list Q) (rows : list (list Q))
+  : list Q * list (list Q) :=
+  let es := edges r0 r1 n in
+  let siv := fold_right Qplus 0 (map Qinv vols) in
+  let sh := consecutive (spec_shell_volume pi_f64) es in
+  (consecutive spec_bin_centre es,
+   map (fun row => map (fun cv => inject_Z (Z.of_nat (fst cv)) / (inject_Z (Z.of_nat npairs) / period * siv * snd cv))
+                       (combine (hist (map sqq es) row) sh)) rows).
+
+(* tolerance, unit, r0, r1, bins, pairs, periodic, frames with cells, time pairs, self_correlation, period_length *)
+Definition rtcase := (Q * Z * Q * Q * (nat + Q) * list (nat * nat) * bool * list (vec * frame)
+                      * list (nat * nat) * bool * option nat)%type.
+
+Definition rdf_t_rows (c : rtcase) : list (list Q) :=
+  let '(tol, unit, r0, r1, b, pairs, per, frames, times, self, period) := c in
+  let u := inject_Z unit in
+  let ps := rdf_t_pairs self pairs in
+  map (fun t =>
+    let bf0 := nth (fst t) frames ((0, 0, 0)%Z, []) in
+    let bf1 := nth (snd t) frames ((0, 0, 0)%Z, []) in
+    map (fun p => inject_Z (dist2_pts (Some (COrth (fst bf0))) per (coord (snd bf0) (fst p)) (coord (snd bf1) (snd p)))
+                  / (u * u)) ps) times.
+
+Definition run_rdf_t_guard (c : rtcase) : list Z :=
+  let '(tol, unit, r0, r1, b, pairs, per, frames, times, self, period) := c in
+  let es := map sqq (edges r0 r1 (rdf_nbins r0 r1 b)) in
+  let near (x e : Q) := negb (Qeq_bool x e) && Qle_bool (Qabs (x - e)) ((1 # 1000000) * e) in
+  if existsb (fun x => existsb (near x) es) (concat (rdf_t_rows c)) then [0%Z] else [1%Z].
+
+Definition run_rdf_t (c : rtcase) : Q * list Q :=
+  let '(tol, unit, r0, r1, b, pairs, per, frames, times, self, period) := c in
+  let n := rdf_nbins r0 r1 b in
+  let u := inject_Z unit in
+  let vol (bx : vec) := let '(x, y, z) := bx in (inject_Z x / u) * (inject_Z y / u) * (inject_Z z / u) in
+  let p := match period with Some k => k | None => length frames end in
+  let '(r, g) := rdf_t r0 r1 n (length (rdf_t_pairs self pairs)) (inject_Z (Z.of_nat p))
+                       (map (fun bf => vol (fst bf)) frames) (rdf_t_rows c) in
+  (tol, inject_Z (Z.of_nat n) :: r ++ concat g).
